@@ -2,6 +2,8 @@
 Props/C07.lean — C07 "Saving unchanged tags is lossless and idempotent".
 -/
 import MutagenModel.Proofs.Container.Flac
+import MutagenModel.Proofs.Container.Id3File
+import MutagenModel.Proofs.Padding
 import MutagenModel.Proofs.TagOrder
 set_option linter.unusedVariables false
 namespace Mutagen.C07
@@ -57,5 +59,59 @@ example : id3Body [⟨7, [1], [65]⟩, ⟨7, [2], [65]⟩] ≠ id3Body [⟨7, [2
 open Mutagen.TagOrder in
 example : apeBody [⟨[84], 0, [97]⟩, ⟨[65], 0, [98, 99]⟩] = apeBody [⟨[65], 0, [98, 99]⟩, ⟨[84], 0, [97]⟩] := by
   simp [apeBody, List.mergeSort, List.MergeSort.Internal.splitInTwo, apeLe, lexLe, Ape.encodeItem, toLE, bytesNat]
+
+/-! ## free-standing ID3 files -/
+
+/-- ID3: saving the same frames a second time under the default padding policy gives the same file,
+when the ID3v1 block keeps its length (so the amount of data behind the tag, which the policy looks
+at, is the same): the first save's answer `p` is a fixed point of the policy -/
+theorem id3_resave_idempotent (L : Id3F.Layout) (h : L.OK) (vmaj : Nat) (hvm : vmaj = 3 ∨ vmaj = 4) (frames : Bytes)
+    (v1opt : Nat) (blk : Bytes) (p : Nat)
+    (hp : Generated.defaultPadding ((L.tag.length : Int) - (frames.length + 10 : Nat)) (L.audio.length + L.v1.length) = p)
+    (hfit : frames.length + p < 2 ^ 28)
+    (hv1len : (Id3F.newV1 L.v1 v1opt blk).length = L.v1.length) (hblk : blk ≠ [])
+    (hv1 : Id3F.V1OK L.audio (Id3F.newV1 L.v1 v1opt blk)) :
+    ∃ out, Id3F.save L.render vmaj frames .default v1opt blk = .ok out ∧
+      Id3F.save out vmaj frames .default v1opt blk = .ok out := by
+  obtain ⟨hd, hh, hs⟩ := Id3F.save_layout L h vmaj hvm frames .default v1opt blk p (by simpa [getPadding] using hp) hfit
+  refine ⟨_, hs, ?_⟩
+  obtain ⟨a, b, c, d, h1, _⟩ := Id3F.header_ok vmaj (frames.length + p) hfit
+  have hhd : hd = Id3F.magicID3 ++ [UInt8.ofNat vmaj, 0, 0] ++ [a, b, c, d] := by rw [h1] at hh; cases hh; rfl
+  -- the saved file as a layout
+  let L1 : Id3F.Layout := ⟨hd ++ (frames ++ zeros p), L.audio, Id3F.newV1 L.v1 v1opt blk⟩
+  have hL1 : L1.OK := by
+    refine ⟨Or.inr ⟨vmaj, hd, frames ++ zeros p, by omega, by simpa using hfit, by simpa using hh, rfl⟩, ?_, hv1⟩
+    intro ht
+    have : (hd ++ (frames ++ zeros p)) ≠ [] := by rw [hhd]; simp [Id3F.magicID3]
+    exact absurd ht this
+  have hlen1 : L1.tag.length = frames.length + p + 10 := by
+    show (hd ++ (frames ++ zeros p)).length = _
+    rw [hhd]; simp [Id3F.magicID3]
+  have hp2 : getPadding .default ((L1.tag.length : Int) - (frames.length + 10 : Nat)) (L1.audio.length + L1.v1.length) = p := by
+    show Generated.defaultPadding _ _ = _
+    rw [hlen1]
+    have e : ((frames.length + p + 10 : Nat) : Int) - ((frames.length + 10 : Nat) : Int) = (p : Int) := by omega
+    have e2 : L1.audio.length + L1.v1.length = L.audio.length + L.v1.length := by
+      show L.audio.length + (Id3F.newV1 L.v1 v1opt blk).length = _
+      rw [hv1len]
+    rw [e, e2, ← hp]
+    exact defaultPadding_idempotent _ _
+  obtain ⟨hd2, hh2, hs2⟩ := Id3F.save_layout L1 hL1 vmaj hvm frames .default v1opt blk p hp2 hfit
+  have hrender : L1.render = hd ++ frames ++ zeros p ++ L.audio ++ Id3F.newV1 L.v1 v1opt blk := by
+    simp [Id3F.Layout.render, L1, List.append_assoc]
+  rw [← hrender, hs2]
+  have hd2eq : hd2 = hd := by rw [hh] at hh2; cases hh2; rfl
+  rw [hd2eq]
+  have hnv : Id3F.newV1 (Id3F.newV1 L.v1 v1opt blk) v1opt blk = Id3F.newV1 L.v1 v1opt blk := by
+    unfold Id3F.newV1
+    by_cases hc : (v1opt = 1 ∧ L.v1 ≠ []) ∨ v1opt = 2
+    · simp only [hc, ↓reduceIte]
+      rcases hc with ⟨h1, _⟩ | h2
+      · simp [h1, hblk]
+      · simp [h2]
+    · simp only [hc, ↓reduceIte]
+      have h2 : ¬ v1opt = 2 := fun e => hc (Or.inr e)
+      simp [h2]
+  rw [show L1.audio = L.audio from rfl, show L1.v1 = Id3F.newV1 L.v1 v1opt blk from rfl, hnv, hrender]
 
 end Mutagen.C07
